@@ -19,7 +19,7 @@ NONE == <<>>
 \* deterministic, pairwise distinct lattice points
 P(k) == <<3 * k + 1, ((k * k) % 7) + 2 * k - 5>>
 
-\* kinds: M L Q C A Z and R (a line returning to the sub-path start: makes the next close zero-length)
+\* kinds: M L Q C A E Z and R (a line returning to the sub-path start: makes the next close zero-length)
 \* builder state <<cur, zp, k, segs>>
 BuildStep(b, kind) ==
   LET cur == b[1]  zp == b[2]  k == b[3]  segs == b[4]
@@ -36,6 +36,10 @@ BuildStep(b, kind) ==
                        Append(segs, <<"C", s, P(k1), P(k1 + 1), P(k1 + 2)>>)>>
     [] kind = "A" -> <<P(k1), z1, k1 + 1,
                        Append(segs, <<"A", s, <<20 + k, 30 + k, 15 * (k % 5)>>, <<k % 2, (k \div 2) % 2>>, P(k1)>>)>>
+    [] kind = "E" -> LET e == P(k1)                                  \* quarter of an axis-aligned ellipse: both end points lie on its axes
+                         dx == IF e[1] > s[1] THEN e[1] - s[1] ELSE s[1] - e[1]
+                         dy == IF e[2] > s[2] THEN e[2] - s[2] ELSE s[2] - e[2]
+                     IN <<e, z1, k1 + 1, Append(segs, <<"A", s, <<dx, IF dy = 0 THEN 2 ELSE dy, 0>>, <<0, k % 2>>, e>>)>>
     [] kind = "Z" -> <<zp, zp, k, Append(segs, <<"Z", cur, NONE, NONE, zp>>)>>
 
 \* which kinds may follow in a valid path (closes need a sub-path start; R needs cur # zp)
